@@ -275,7 +275,8 @@ func Observe(h *Handle, be Backend, res string) Obs {
 		if len(o.Store) >= 128 && bytes.Equal(o.Store[:128], hb) {
 			off := int64(binary.LittleEndian.Uint64(hb[96:104]))
 			size := int64(binary.LittleEndian.Uint64(hb[104:112]))
-			if off >= 0 && size >= 0 && off+size <= int64(len(o.Store)) && size == int64(len(o.Rds)) &&
+			size = int64(len(o.Rds)) // the table proper: 585 bytes per descriptor
+			if off >= 0 && off <= int64(len(o.Store)) && off+size <= int64(len(o.Store)) &&
 				bytes.Equal(o.Store[off:off+size], o.Rds) {
 				o.MemIsFile = true
 			}
@@ -458,6 +459,45 @@ func uuidString(id [16]byte) string {
 	return fmt.Sprintf("%x-%x-%x-%x-%x", id[0:4], id[4:6], id[6:8], id[8:10], id[10:16])
 }
 
+// Ask runs a query against the handle and records the answer.
+func Ask(h *Handle, q *Query) {
+	var fns []sif.DescriptorSelectorFunc
+	for _, s := range q.Sels {
+		fns = append(fns, BuildSelector(s))
+	}
+	q.Err, q.IDs, q.Bytes = "", nil, nil
+	switch q.Kind {
+	case "many":
+		ds, err := h.F.GetDescriptors(fns...)
+		if err != nil {
+			q.Err = ErrClass(err)
+			return
+		}
+		for _, d := range ds {
+			q.IDs = append(q.IDs, [2]uint32{d.ID(), sif.VerifRelativeID(d)})
+		}
+	case "one":
+		d, err := h.F.GetDescriptor(fns...)
+		if err != nil {
+			q.Err = ErrClass(err)
+			return
+		}
+		q.IDs = append(q.IDs, [2]uint32{d.ID(), sif.VerifRelativeID(d)})
+	default:
+		d, err := h.F.GetDescriptor(sif.WithID(q.ID))
+		if err != nil {
+			q.Err = ErrClass(err)
+			return
+		}
+		b, err := d.GetData()
+		if err != nil {
+			q.Err = ErrClass(err)
+			return
+		}
+		q.Bytes = b
+	}
+}
+
 // RunCase executes c against the library, filling in observations and clock readings.
 func RunCase(c *Case, dir string) ([]ClockNote, error) {
 	var notes []ClockNote
@@ -486,7 +526,11 @@ func RunCase(c *Case, dir string) ([]ClockNote, error) {
 	}
 	if h == nil {
 		c.Steps = nil
+		c.InitQueries = nil
 		return notes, nil
+	}
+	for j := range c.InitQueries {
+		Ask(h, &c.InitQueries[j])
 	}
 	for i := range c.Steps {
 		res, note, err := Apply(h, &c.Steps[i].Op)
@@ -497,6 +541,9 @@ func RunCase(c *Case, dir string) ([]ClockNote, error) {
 			notes = append(notes, *note)
 		}
 		c.Steps[i].Obs = Observe(h, be, res)
+		for j := range c.Steps[i].Queries {
+			Ask(h, &c.Steps[i].Queries[j])
+		}
 	}
 	return notes, nil
 }
